@@ -1118,7 +1118,10 @@ def Fate.holds (reg : Registry) (j : Job) : Fate → Prop
       f.body (serverParams j.params) = .ret v ∧ (j.notify = false → v.wfJson = true)
   | .raises t f cls text =>
     resolves reg j.method = some (t, f) ∧ binds f.sig (serverParams j.params) = true ∧
-      ∃ te ae dp, f.body (serverParams j.params) = .raised cls text te ae dp ∧ (te = true → dp ≠ 0)
+      ((∃ te ae dp, f.body (serverParams j.params) = .raised cls text te ae dp ∧ (te = true → dp ≠ 0)) ∨
+        -- an exception that is not an instance of `Exception` (`sys.exit()` in the method, …): the bare `except:`
+        -- of `_dispatch` reports it like any other
+        ∃ dp, f.body (serverParams j.params) = .raisedBase cls text dp)
   | .unknown => unknownName reg j.method = true
   | .nobind => ∃ t f, resolves reg j.method = some (t, f) ∧ binds f.sig (serverParams j.params) = false
 
@@ -1219,8 +1222,9 @@ private theorem fate_dispatch (s : Server) (hcustom : s.custom = Option.none) (j
     obtain ⟨hr, hb, hbody, _⟩ := h
     rw [runDispatcher_resolves s hcustom _ _ t f hr, invoke_ret t f _ _ v hb hbody]; rfl
   | raises t f cls text =>
-    obtain ⟨hr, hb, te, ae, dp, hbody, hdp⟩ := h
-    rw [runDispatcher_resolves s hcustom _ _ t f hr, invoke_raised t f _ _ cls text te ae dp hb hbody hdp]; rfl
+    obtain ⟨hr, hb, ⟨te, ae, dp, hbody, hdp⟩ | ⟨dp, hbody⟩⟩ := h
+    · rw [runDispatcher_resolves s hcustom _ _ t f hr, invoke_raised t f _ _ cls text te ae dp hb hbody hdp]; rfl
+    · rw [runDispatcher_resolves s hcustom _ _ t f hr, invoke_raisedBase t f _ _ cls text dp hb hbody]; rfl
   | unknown =>
     simp only [Fate.holds, unknownName, Bool.and_eq_true, Option.isNone_iff_eq_none] at h
     obtain ⟨hf, hi⟩ := h
@@ -1615,6 +1619,7 @@ def fateOf (tgt : Job → Target) (fn : Job → Callable) (j : Job) : Fate :=
   match (fn j).body (serverParams j.params) with
   | .ret v => .returns (tgt j) (fn j) v
   | .raised cls text _ _ _ => .raises (tgt j) (fn j) cls text
+  | .raisedBase cls text _ => .raises (tgt j) (fn j) cls text
 
 /-- `C01_batch` with class translation ON (any combination of the proxy's, the MultiCall's and the
     server's flags) for payloads free of `"__jsonclass__"` and transparent translators (what C15 establishes
@@ -1669,7 +1674,18 @@ theorem C01_batch_jsonclass : C01_batch_jsonclass_full_statement := by
         simp [framed, hbody, h0] at this
       refine ⟨⟨hgood.hname, hgood.hshape, hgood.hwf, ?_⟩, ⟨hfp, ?_⟩, ?_, ?_⟩
       · simp only [hfate, Fate.holds]
-        exact ⟨hgood.hres, hgood.hbind, te, ae, dp, hbody, fun _ => hdp⟩
+        exact ⟨hgood.hres, hgood.hbind, Or.inl ⟨te, ae, dp, hbody, fun _ => hdp⟩⟩
+      · intro t f v' ho; simp [hfate] at ho
+      · simp [jobEffects, hfate, Fate.effects]
+      · intro hn
+        have := (hgood.hret hn).1
+        rw [hbody] at this
+        cases this
+    | raisedBase cls text dp =>
+      have hfate : fateOf tgt fn j = .raises (tgt j) (fn j) cls text := by simp [fateOf, hbody]
+      refine ⟨⟨hgood.hname, hgood.hshape, hgood.hwf, ?_⟩, ⟨hfp, ?_⟩, ?_, ?_⟩
+      · simp only [hfate, Fate.holds]
+        exact ⟨hgood.hres, hgood.hbind, Or.inr ⟨dp, hbody⟩⟩
       · intro t f v' ho; simp [hfate] at ho
       · simp [jobEffects, hfate, Fate.effects]
       · intro hn
@@ -1796,7 +1812,7 @@ example : ∀ x ∈ exJobs, JobSpec exReg x ∧ JobFree x := by
               hfate := ⟨rfl, by decide +kernel, rfl, fun _ => by decide +kernel⟩ },
            { params := by decide +kernel, result := fun t f v h _ => by injection h with _ _ h; subst h; decide +kernel }⟩
   · exact ⟨{ hname := by decide, hshape := Or.inr (Or.inl rfl), hwf := by decide +kernel,
-              hfate := ⟨rfl, by decide +kernel, false, false, 1, rfl, by decide⟩ },
+              hfate := ⟨rfl, by decide +kernel, Or.inl ⟨false, false, 1, rfl, by decide⟩⟩ },
            { params := by decide +kernel, result := fun t f v h _ => by cases h }⟩
   · exact ⟨{ hname := by decide, hshape := Or.inl rfl, hwf := by decide +kernel,
               hfate := (by show unknownName exReg "nosuch" = true; decide +kernel) },
@@ -1805,7 +1821,7 @@ example : ∀ x ∈ exJobs, JobSpec exReg x ∧ JobFree x := by
               hfate := ⟨.func, { sig := { names := [] }, body := fun _ => .ret (.bool false) }, rfl, by decide +kernel⟩ },
            { params := by decide +kernel, result := fun t f v h _ => by cases h }⟩
   · exact ⟨{ hname := by decide, hshape := Or.inl rfl, hwf := by decide +kernel,
-              hfate := ⟨rfl, by decide +kernel, false, false, 1, rfl, by decide⟩ },
+              hfate := ⟨rfl, by decide +kernel, Or.inl ⟨false, false, 1, rfl, by decide⟩⟩ },
            { params := by decide +kernel, result := fun t f v h _ => by cases h }⟩
 example : (answered exJobs).map jobClient =
     [.ok (.list [.list [.int 1, .list [.str "é"]], .int 0]),
